@@ -177,7 +177,6 @@ func Gen(r *vh.Rand, o GenOpts) *Graph {
 	return g
 }
 
-
 // Shape summarises a case for the coverage key / distribution.
 func Shape(g *Graph) (nodes, edges, branches, nested int, cyclic, fanin bool) {
 	nodes, edges, branches = len(g.Nodes), len(g.Edges), len(g.Branches)
@@ -209,4 +208,128 @@ func Shape(g *Graph) (nodes, edges, branches, nested int, cyclic, fanin bool) {
 		}
 	}
 	return
+}
+
+// GenLayered produces layered graphs: nodes of layer i connect only to layer i+1 (the last
+// layer to END), every node has at least one plain outgoing edge, some nodes additionally
+// carry a (multi-)branch into the next layer whose rows may select nothing. In either trigger
+// mode such a run reaches END with nothing else scheduled and every output has a consumer.
+func GenLayered(r *vh.Rand, mode string) *Graph {
+	g := &Graph{Mode: mode}
+	if mode == "mixed" {
+		g.Mode = []string{"pregel", "dag"}[r.Intn(2)]
+	}
+	nl := r.Range(1, 3)
+	var layers [][]string
+	id := 0
+	for l := 0; l < nl; l++ {
+		w := r.Range(1, 3)
+		var layer []string
+		for i := 0; i < w; i++ {
+			k := fmt.Sprintf("n%d", id)
+			id++
+			layer = append(layer, k)
+			op := "tag"
+			if l > 0 && r.Chance(45) {
+				op = "pass" // lazy: hands its input stream on without draining it
+			}
+			g.Nodes = append(g.Nodes, Node{Key: k, Body: Body{Op: op}})
+		}
+		layers = append(layers, layer)
+	}
+	connect := func(from string, next []string, toEnd bool) {
+		if toEnd {
+			g.Edges = append(g.Edges, [2]string{from, "end"})
+			return
+		}
+		p := r.Perm(len(next))
+		ne := r.Range(1, len(next))
+		edgeTo := map[string]bool{}
+		for _, i := range p[:ne] {
+			g.Edges = append(g.Edges, [2]string{from, next[i]})
+			edgeTo[next[i]] = true
+		}
+		if r.Chance(55) {
+			// branch ends: next-layer nodes not already reached by a plain edge from this node
+			var cands []string
+			for _, k := range next {
+				if !edgeTo[k] {
+					cands = append(cands, k)
+				}
+			}
+			if len(cands) >= 2 {
+				b := Branch{From: from, Ends: cands, Multi: r.Chance(70)}
+				fromTag := from == "start"
+				for _, n := range g.Nodes {
+					if n.Key == from && n.Body.Op == "tag" {
+						fromTag = true
+					}
+				}
+				b.Stream = fromTag && r.Chance(60)
+				rows := r.Range(1, 3)
+				for i := 0; i < rows; i++ {
+					if b.Multi {
+						row := []string{}
+						for _, e := range cands {
+							if r.Chance(40) {
+								row = append(row, e)
+							}
+						}
+						b.Table = append(b.Table, row)
+					} else {
+						b.Table = append(b.Table, []string{cands[r.Intn(len(cands))]})
+					}
+				}
+				g.Branches = append(g.Branches, b)
+			}
+		}
+	}
+	connect("start", layers[0], false)
+	// every first-layer node must be reachable: add missing start edges
+	for _, k := range layers[0] {
+		if !has(g.Edges, "start", k) {
+			inBranch := false
+			for _, b := range g.Branches {
+				for _, e := range b.Ends {
+					if b.From == "start" && e == k {
+						inBranch = true
+					}
+				}
+			}
+			if !inBranch {
+				g.Edges = append(g.Edges, [2]string{"start", k})
+			}
+		}
+	}
+	for l, layer := range layers {
+		for _, k := range layer {
+			if l == len(layers)-1 {
+				connect(k, nil, true)
+			} else {
+				connect(k, layers[l+1], false)
+			}
+		}
+		if l+1 < len(layers) {
+			// every next-layer node needs some incoming connection
+			for _, k := range layers[l+1] {
+				reached := false
+				for _, e := range g.Edges {
+					if e[1] == k {
+						reached = true
+					}
+				}
+				for _, b := range g.Branches {
+					for _, e := range b.Ends {
+						if e == k {
+							reached = true
+						}
+					}
+				}
+				if !reached {
+					g.Edges = append(g.Edges, [2]string{layer[r.Intn(len(layer))], k})
+				}
+			}
+		}
+	}
+	return g
 }
